@@ -54,6 +54,7 @@ macro_rules! dispatch {
             "C01" => $f(&props::c01::C01, $($arg),*),
             "C12" => $f(&props::c12::C12, $($arg),*),
             "C02" => $f(&props::c02::C02, $($arg),*),
+            "C16" => $f(&props::c16::C16, $($arg),*),
             _ => {
                 eprintln!("unknown property {}", $id);
                 2
@@ -94,6 +95,11 @@ fn main() {
             let path = PathBuf::from(&args[3]);
             let code = dispatch!(id, replay_property, &ctx, &path);
             cleanup_tmp(&ctx);
+            std::process::exit(code);
+        }
+        "c16-child" => {
+            // crash-point child of C16: aborts inside the armed storage operation
+            let code = props::c16::child_main(&args[2], args[3].parse().unwrap_or(u64::MAX), &args[4]);
             std::process::exit(code);
         }
         "exp-timing" => {
